@@ -265,6 +265,16 @@ class Prover:
         if D[0] == "discr":
             out.append(("variant", D[1], v))
             sg = D[1]
+            if sg[0] == "slicegetr" and v == 1:
+                sl = sg[1]
+                ln = self.lin(self.an.len_of(sl[1]))
+                if sl[0] == "slice":
+                    out.append(("le", lin_add(self.lin(sl[2]), self.lin(sl[3]), -1)))
+                    out.append(("le", lin_add(self.lin(sl[3]), ln, -1)))
+                elif sl[0] == "slicefrom":
+                    out.append(("le", lin_add(self.lin(sl[2]), ln, -1)))
+                else:
+                    out.append(("le", lin_add(self.lin(sl[2]), ln, -1)))
             if sg[0] == "sliceget":
                 li, ll = self.lin(sg[2]), self.lin(self.an.len_of(sg[1]))
                 if v == 1:      # Some: index < len
